@@ -368,7 +368,7 @@ func (ex *Exec) unop(st *State, fr *Frame, in *ssa.UnOp) Value {
 		return Not(x.(*Term))
 	case token.SUB:
 		if f, ok := x.(*FloatV); ok {
-			return &FloatV{-f.F}
+			return fmap1(f, func(a float64) Value { return &FloatV{F: -a} })
 		}
 		return Un(OpBvNeg, x.(*Term))
 	case token.XOR:
@@ -486,29 +486,33 @@ func (ex *Exec) binop(st *State, site ssa.Instruction, op token.Token, x, y Valu
 			if is32 {
 				f = float64(float32(f))
 			}
-			return &FloatV{f}
+			return &FloatV{F: f}
 		}
+		var fop func(p, q float64) Value
 		switch op {
 		case token.ADD:
-			return r(xv.F + yv.F)
+			fop = func(p, q float64) Value { return r(p + q) }
 		case token.SUB:
-			return r(xv.F - yv.F)
+			fop = func(p, q float64) Value { return r(p - q) }
 		case token.MUL:
-			return r(xv.F * yv.F)
+			fop = func(p, q float64) Value { return r(p * q) }
 		case token.QUO:
-			return r(xv.F / yv.F)
+			fop = func(p, q float64) Value { return r(p / q) }
 		case token.EQL:
-			return Bool(xv.F == yv.F)
+			fop = func(p, q float64) Value { return Bool(p == q) }
 		case token.NEQ:
-			return Bool(xv.F != yv.F)
+			fop = func(p, q float64) Value { return Bool(p != q) }
 		case token.LSS:
-			return Bool(xv.F < yv.F)
+			fop = func(p, q float64) Value { return Bool(p < q) }
 		case token.LEQ:
-			return Bool(xv.F <= yv.F)
+			fop = func(p, q float64) Value { return Bool(p <= q) }
 		case token.GTR:
-			return Bool(xv.F > yv.F)
+			fop = func(p, q float64) Value { return Bool(p > q) }
 		case token.GEQ:
-			return Bool(xv.F >= yv.F)
+			fop = func(p, q float64) Value { return Bool(p >= q) }
+		}
+		if fop != nil {
+			return fmap2(xv, yv, fop)
 		}
 	case *SliceV:
 		yv := y.(*SliceV)
@@ -585,10 +589,12 @@ func (ex *Exec) convert(st *State, site ssa.Instruction, x Value, from, to types
 			return Zext(xv, tw)
 		case *FloatV:
 			_, tsigned, _ := intWidth(to)
-			if tsigned {
-				return BV(tw, uint64(int64(xv.F)))
-			}
-			return BV(tw, uint64(xv.F))
+			return fmap1(xv, func(a float64) Value {
+				if tsigned {
+					return BV(tw, uint64(int64(a)))
+				}
+				return BV(tw, uint64(a))
+			})
 		case *PtrC, *Choice: // unsafe.Pointer → uintptr
 			panic(unsupported("pointer to integer conversion"))
 		}
@@ -598,7 +604,12 @@ func (ex *Exec) convert(st *State, site ssa.Instruction, x Value, from, to types
 		var f float64
 		switch xv := x.(type) {
 		case *FloatV:
-			f = xv.F
+			return fmap1(xv, func(a float64) Value {
+				if is32 {
+					a = float64(float32(a))
+				}
+				return &FloatV{F: a}
+			})
 		case *Term:
 			if !xv.IsConst() {
 				panic(unsupported("symbolic integer to float conversion at " + ex.pos(site)))
@@ -613,7 +624,7 @@ func (ex *Exec) convert(st *State, site ssa.Instruction, x Value, from, to types
 		if is32 {
 			f = float64(float32(f))
 		}
-		return &FloatV{f}
+		return &FloatV{F: f}
 	}
 	if isString(to) {
 		switch xv := x.(type) {
